@@ -98,7 +98,7 @@ func DefaultNodeParams(denom string) nodetypes.Params {
 		10000,
 		sdk.NewDecWithPrec(10, 2),
 		10_000_000, // vstorage threshold (bytes)
-		1800,
+		1_000_000, // offline trigger: far beyond generated histories (C02 varies it)
 	)
 }
 
